@@ -1,2 +1,26 @@
 import PieModel.Props.C11
-#print axioms PieModel.C11_placeholder
+
+#print axioms PieModel.C11_inv_reachable
+#print axioms PieModel.C11_containsEdge_iff
+#print axioms PieModel.C11_getEdgeData_isSome_iff
+#print axioms PieModel.C11_containsTransitiveEdge_iff
+#print axioms PieModel.C11_adjacency_symmetric
+#print axioms PieModel.C11_adjacency_nodup
+#print axioms PieModel.C11_outgoing_complete
+#print axioms PieModel.C11_incoming_complete
+#print axioms PieModel.C11_descendantsUnsorted_spec
+#print axioms PieModel.C11_descendants_spec
+#print axioms PieModel.C11_topoCmp_eq
+#print axioms PieModel.C11_addNode_exact
+#print axioms PieModel.C11_addEdge_verdict
+#print axioms PieModel.C11_addEdge_new
+#print axioms PieModel.C11_addEdge_existing_noop
+#print axioms PieModel.C11_removeEdge_exact
+#print axioms PieModel.C11_removeOutgoing_exact
+#print axioms PieModel.C11_removeNode_exact
+#print axioms PieModel.C11_removeNode_rank_order
+#print axioms PieModel.C11_setNodeData_exact
+#print axioms PieModel.C11_setEdgeData_exact
+#print axioms PieModel.C11_refines_spec_step
+#print axioms PieModel.C11_refines_spec
+#print axioms PieModel.C11_incoming_matches_outgoing
